@@ -497,9 +497,16 @@ def run(repo, rep, tier):
             if isinstance(e, ast.Call) and isinstance(e.func, ast.Attribute) and isinstance(e.func.value, ast.Name) and not e.args:
                 m = repo.lookup(c, e.func.attr)
                 if isinstance(m, FuncInfo):
+                    # a straight-line helper: locals assigned once each, then one return
                     body = [x for x in m.node.body if not (isinstance(x, ast.Expr) and isinstance(x.value, ast.Constant))]
-                    if len(body) == 1 and isinstance(body[0], ast.Return):
-                        return formula(body[0].value, {}, resolver)
+                    lenv = {}
+                    for x in body:
+                        if isinstance(x, ast.Assign) and len(x.targets) == 1 and isinstance(x.targets[0], ast.Name):
+                            lenv[x.targets[0].id] = formula(x.value, lenv, resolver)
+                        elif isinstance(x, ast.Return) and x is body[-1] and x.value is not None:
+                            return formula(x.value, lenv, resolver)
+                        else:
+                            break
             if isinstance(e, ast.Call) and isinstance(e.func, ast.Name) and e.func.id == "len":
                 return Rat.sym("len(" + ast.unparse(e.args[0]).replace(" ", "") + ")")
             raise Unsupported(f"call {ast.unparse(e)}")
